@@ -47,6 +47,14 @@ class C17(Prop):
             for c in hist:
                 g.apply(c)
                 cur.append(R.tagnums(g.root.current_tags))
+            # tags change only through the protocol: what a consumer was given earlier still reads as it did then, and a
+            # client scribbling on the sets it was given does not change anybody's current_tags
+            if R.retained_changed():
+                return ['raised', 'delivered-tags-changed-after-delivery']
+            last = R.tagnums(g.root.current_tags)
+            R.scribble_on_retained()
+            if R.tagnums(g.root.current_tags) != last:
+                return ['raised', 'current_tags-changed-without-a-tags-call']
             return [cur, [R.seen_of(p) for p in g.points]]
         except Exception as e:
             return ['raised', type(e).__name__]
